@@ -330,13 +330,16 @@ var fmtNearPorts = map[string]struct {
 	"formatter.fmtSbx":       {nil, nil, "only the limit guard differs"},
 	"formatter.fmtC":         {[]string{"EncodeRune", "f.pad(buf[:w])"}, []string{"AppendRune"}, "utf8.AppendRune did not exist when the port was made"},
 	"pp.fmtInteger":          {[]string{"MaxRune", "badVerb"}, nil, "the port keeps the `v <= utf8.MaxRune` guard of %q"},
-	"pp.fmtBytes":            {nil, []string{"=case", "printValue"}, "no reflection fallback for other verbs"},
+	"pp.fmtBytes": {[]string{"WriteSingleByte('[')", "range v", "if i > 0", "WriteSingleByte(' ')", "p.fmtInteger(uint64(c), unsigned, verb)", "WriteSingleByte(']')"}, []string{"printValue"},
+		"other verbs: fmt falls back to reflection, which formats the bytes one by one as integers; the port's default arm does that directly"},
 	"pp.doFormat": {[]string{"defer func()", "p.fmt.zero = !p.fmt.minus", "p.fmt.zero = false", "if c == 'v'", "UndefinedValue.String()", "arg.TypeName()", "return nil"},
 		[]string{"zero () ) true", "switch _ $", "wrappedErrs", "fallthrough", "'w' ()", "=case 'v' () |", "nilAngleString", "TypeOf"},
 		"doPrintf of a newer fmt: %w bookkeeping, '0' after '-' handled in the flag switch, objects print through TypeName()/String(); the recover wrapper and the error result are the port's"},
 	"pp.badArgNum":  {nil, nil, "writes go through pp's Write* methods"},
 	"pp.missingArg": {nil, nil, "writes go through pp's Write* methods"},
-	"pp.badVerb":    {[]string{"p.arg.String()", "UndefinedValue"}, []string{"TypeOf", "IsValid", "Type ()", "printValue", "nilAngleString", "'=' ()"}, "objects print through String(); there is no reflect.Value"},
+	"pp.badVerb":    {[]string{"p.arg.String()", "UndefinedValue"}, []string{"TypeOf", "IsValid", "Type ()", "printValue", "nilAngleString", "'=' ()"}, "objects print through String(); there is no reflect.Value (the visible difference is the listed finding diverges/bad-verb-shows-value)"},
+	"intFromArg": {[]string{"num64", "tooLarge(num)", "num = 0"}, []string{"TypeAssertExpr", "un! ($5", "switch assign:=", "=case", "case Int ()", "case Uint ()", "SelectorExpr ($6 () Int ()", "SelectorExpr ($6 () Uint ()", "bin== (call (int64", "bin&& (bin<= (0", "assign= ($4 () call (int ()", "assign= ($5 () true ()", "tooLarge", "assign= ($4 () 0 ()"},
+		"the argument is converted with ToInt64 instead of a type switch over Go's integer kinds (the visible difference is the listed finding diverges/star-arg-accepts-non-int)"},
 }
 
 func ruleFMT4(c *Ctx) {
@@ -639,10 +642,81 @@ func ruleFMT7(c *Ctx) {
 		}
 		return false
 	})
-	c.check(strings.Contains(prelude["T"], "fmtS(arg.TypeName())") && strings.Contains(prelude["T"], "return"), "printarg/%T", mf, "%T prints TypeName()", "%T is not served by fmtS(arg.TypeName()) before the type dispatch")
-	c.check(strings.Contains(prelude["v"], "fmtS(arg.String())") && strings.Contains(prelude["v"], "return"), "printarg/%v", mf, "%v prints String()", "%v is not served by fmtS(arg.String()) before the type dispatch")
+	// %v is not special: the typed arms handle it (fmt's defaults %t %d %g %s);
+	// %T is: fmt prints the Go type of the value
+	_, vSpecial := prelude["v"]
+	c.check(!vSpecial, "printarg/%v", mf, "%v goes through the type dispatch (default formats of fmt)", "%v is served before the type dispatch: strings would print quoted, floats and bytes not in fmt's default formats")
+	c.check(!strings.Contains(prelude["T"], "TypeName()"), "printarg/%T", mf, "%T prints the Go type as fmt does", "%T prints the tengo type name (TypeName()) where fmt prints the Go type of the value")
 	if n < 6 {
 		c.fail("printarg/count", mf, fmt.Sprintf("only %d arms examined", n))
+	}
+	// visible differences of the port that the property does not exempt
+	if bv := w.FuncDecl(p, "pp.badVerb"); bv != nil {
+		showsValue := containsNode(bv.Body, func(nd ast.Node) bool {
+			call, ok := nd.(*ast.CallExpr)
+			if !ok {
+				return false
+			}
+			se, ok := call.Fun.(*ast.SelectorExpr)
+			return ok && se.Sel.Name == "String" && strings.HasSuffix(w.Src(se.X), ".arg")
+		})
+		c.check(!showsValue, "diverges/bad-verb-shows-value", bv, "a bad verb is reported as %!verb(type=value)", "a bad verb is reported as %!verb(value=value): the place where fmt prints the Go type shows the value's String() (`%d` of \"abc\" gives %!d(\"abc\"=abc), fmt gives %!d(string=abc))")
+	}
+	if ia := w.FuncDecl(p, "intFromArg"); ia != nil {
+		lenient := containsNode(ia.Body, func(nd ast.Node) bool {
+			call, ok := nd.(*ast.CallExpr)
+			return ok && Callee(p, call) != nil && Callee(p, call).Name() == "ToInt64"
+		})
+		c.check(!lenient, "diverges/star-arg-accepts-non-int", ia, "a `*` width or precision must be an int", "a `*` width/precision argument is converted with ToInt64, which also accepts floats, strings and bools: `%*d` with width 3.0 pads where fmt prints %!(BADWIDTH)")
+	}
+}
+
+// FMT.8: the script-level entry points hand every format string to Format;
+// none returns the format string itself (a lone format string still has
+// directives: %% and verbs with missing arguments).
+func ruleFMT8(c *Ctx) {
+	w := c.W
+	n := 0
+	for _, it := range []struct {
+		p    pkgT
+		name string
+	}{{w.Root, "builtinFormat"}, {w.Stdlib, "fmtSprintf"}} {
+		fd := w.FuncDecl(it.p, it.name)
+		if fd == nil {
+			c.anchor(it.name)
+			continue
+		}
+		n++
+		p := it.p
+		// the variable holding the asserted *String format
+		var fmtObj types.Object
+		ast.Inspect(fd.Body, func(nd ast.Node) bool {
+			as, ok := nd.(*ast.AssignStmt)
+			if ok && len(as.Lhs) == 2 && len(as.Rhs) == 1 {
+				if ta, ok := as.Rhs[0].(*ast.TypeAssertExpr); ok && strings.HasSuffix(w.Src(ta.Type), "String") {
+					if id, ok := as.Lhs[0].(*ast.Ident); ok {
+						fmtObj = p.TypesInfo.Defs[id]
+					}
+				}
+			}
+			return true
+		})
+		raw := containsNode(fd.Body, func(nd ast.Node) bool {
+			r, ok := nd.(*ast.ReturnStmt)
+			if !ok || len(r.Results) == 0 {
+				return false
+			}
+			id, ok := ast.Unparen(r.Results[0]).(*ast.Ident)
+			return ok && fmtObj != nil && p.TypesInfo.Uses[id] == fmtObj
+		})
+		calls := containsNode(fd.Body, func(nd ast.Node) bool {
+			call, ok := nd.(*ast.CallExpr)
+			return ok && Callee(p, call) != nil && Callee(p, call).Name() == "Format"
+		})
+		c.check(calls && !raw && fmtObj != nil, "entry/"+it.name, fd, "every format string goes through Format", it.name+" returns the format string unformatted on some path: `%%` stays `%%` and a verb without argument is not reported as %!verb(MISSING)")
+	}
+	if n < 2 {
+		c.fail("entry/count", nil, "format entry points not found")
 	}
 }
 
